@@ -1,4 +1,5 @@
 import GlmVerif.Spec.C02
+import GlmVerif.Spec.C04
 import GlmVerif.Spec.C08
 import GlmVerif.Spec.C09
 import GlmVerif.Spec.C10
@@ -6,6 +7,7 @@ import GlmVerif.Spec.C12
 namespace Glm.Spec
 def familiesOf : String → List Family
   | "C02" => C02.families
+  | "C04" => C04.families
   | "C08" => C08.families
   | "C09" => C09.families
   | "C10" => C10.families
